@@ -395,7 +395,9 @@ func runFed(cfg *runCfg, prop string) error {
 					}
 					// spread over all five kinds; the last two only make sense for follow-up fetches
 					k := kinds[int(one.Salt+uint32(len(c.Query)))%len(kinds)]
-					if _, dep := c.Vars["id"]; !dep && (k == FaultNodeNull || k == FaultWrong || k == FaultErrsNode) {
+					// (a follow-up fetch is known by its text: a client variable that happens to be called id
+					// does not make a root request one)
+					if dep := strings.Contains(c.Query, "$id: ID!") && strings.Contains(c.Query, "node(id: $id)"); !dep && (k == FaultNodeNull || k == FaultWrong || k == FaultErrsNode) {
 						k = FaultTransport
 					}
 					return k
@@ -557,13 +559,13 @@ func runFed(cfg *runCfg, prop string) error {
 					var walkSteps func(st *gateway.QueryPlanStep)
 					walkSteps = func(st *gateway.QueryPlanStep) {
 						for _, t := range st.Then {
-							scratch := NewCoqFile("")
+							// the printed text, not interned names: steps that differ in a name only are different
 							fr := []string{}
 							for _, fd := range t.FragmentDefinitions {
-								fr = append(fr, fd.Name+" on "+fd.TypeCondition+" "+scratch.Sels(fd.SelectionSet))
+								fr = append(fr, fd.Name+" on "+fd.TypeCondition+" "+selText(fd.SelectionSet))
 							}
 							sort.Strings(fr)
-							key := strings.Join(t.InsertionPoint, "/") + "|" + locationOf(t.Queryer) + "|" + t.ParentType + "|" + scratch.Sels(t.SelectionSet) + "|" + strings.Join(fr, ";")
+							key := strings.Join(t.InsertionPoint, "/") + "|" + locationOf(t.Queryer) + "|" + t.ParentType + "|" + selText(t.SelectionSet) + "|" + strings.Join(fr, ";")
 							if seenStep[key] {
 								ndup++
 							}
